@@ -46,6 +46,7 @@ type Engine struct {
 	recursive   map[*ssa.Function]bool
 	allFuncs    []*ssa.Function
 	weaveErrs   []string
+	orphans     []*Contract
 	overlayDir  string
 	specFns     map[*ssa.Function]bool // functions declared in zz_verif_* files (spec / lemma / generated)
 	extraAxioms []axiom
@@ -116,6 +117,7 @@ func load(repo string) (*Engine, error) {
 		w.weave(c)
 	}
 	e.weaveErrs = w.errs
+	e.orphans = append(e.orphans, w.orphans...)
 	ov := w.overlay()
 	e.overlay = ov
 	cfg := &packages.Config{
@@ -224,7 +226,13 @@ func (e *Engine) index() {
 		key := pp + "." + c.FuncName
 		f := e.fnByKey[key]
 		if f == nil {
-			e.weaveErrs = append(e.weaveErrs, fmt.Sprintf("%s: contract names unknown function %s", c.File, key))
+			known := false
+			for _, o := range e.orphans {
+				known = known || o == c
+			}
+			if !known {
+				e.orphans = append(e.orphans, c)
+			}
 			continue
 		}
 		e.contractOf[f] = c
